@@ -34,10 +34,13 @@ FlagsOK ==
 \* chain that is followed by a further transformation before a model exists carries the structural facts only
 TVar == IF "var" \in DOMAIN Ev THEN Ev.var ELSE "x"
 Structural == "structural_only" \in DOMAIN Ev /\ Ev.structural_only
+\* a variable that belongs to a model cannot be transformed, and the attempt leaves the model as it was
+Frozen == "frozen" \in DOMAIN Hdr /\ Hdr.frozen
 TTransform ==
   /\ IsEvent("transform")
-  /\ Transform(TVar, Ev.bij)
+  /\ (IF Frozen THEN rej' = "frozen" /\ UNCHANGED vars ELSE Transform(TVar, Ev.bij))
   /\ Chk("transform_accepted_or_rejected_as_specified", Ev.reason = rej')
+  /\ Chk("rejected_transformation_leaves_the_model_unchanged", "model_unchanged" \notin DOMAIN Ev \/ Ev.model_unchanged)
   /\ FlagsOK
   /\ (IF ~Ev.ok THEN TRUE
       ELSE IF Structural THEN Chk("new_variable_named_after_original", Ev.new_name = TName(TVar))
